@@ -88,7 +88,14 @@ def forms(tier):
     # stack instructions whose memory operand is addressed through esp (the address uses esp BEFORE the push / AFTER the pop)
     F += [('push DWORD PTR [esp]', 'stk'), ('push DWORD PTR [esp+4]', 'stk'), ('push DWORD PTR [esp-4]', 'stk'), ('push WORD PTR [esp+2]', 'stk'),
           ('pop DWORD PTR [esp+4]', 'stk'), ('pop DWORD PTR [esp-4]', 'stk'), ('pop WORD PTR [esp+2]', 'stk'), ('push DWORD PTR [esp+ebx*4]', 'stk-idx'),
-          ('call DWORD PTR [esp]', 'tgt-stk')]
+          ('call DWORD PTR [esp]', 'tgt-stk'),
+          ('pop DWORD PTR [esp+ebx*4+8]', 'stk-idx'), ('pop WORD PTR [esp+ebx*1+16]', 'stk-idx'), ('push DWORD PTR [esp+ebx*4+8]', 'stk-idx'),
+          ('pop DWORD PTR [esp+ebx*2]', 'stk-idx')]
+    # 16-bit addressing (67): every ModRM row through lea (no memory access), negative / positive disp8 and disp16
+    for ad in ('bx+si', 'bx+di', 'bp+si', 'bp+di', 'si', 'di', 'bp', 'bx'):
+        for d in ('-16', '+100', '-1', '+0x1234', '-0x1234'):
+            F.append(('lea eax, [%s%s]' % (ad, d), 'rr3' if '+' in ad else 'r'))
+    F += [('lea ecx, [bx+si]', 'rr3'), ('lea cx, [bx+di-2]', 'rr3'), ('lea eax, [0x1234]', 'fl')]
     # bit instructions with a memory operand and a register bit offset (the addressed dword is base + 4*(offset>>5), signed)
     for m in ['bt', 'bts', 'btr', 'btc']:
         F += [('%s DWORD PTR [esi], ebx' % m, 'mbit'), ('%s WORD PTR [esi], bx' % m, 'mbit')]
